@@ -234,7 +234,12 @@ def _call(mpc, pid, ts, st_, op, sender):
         bits = mpc.to_bits(a) if l is None else mpc.to_bits(a, l)
         return bits if kind == 'to_bits' else mpc.from_bits(bits)
     if kind == 'from_bits':
-        return mpc.from_bits(deal(op[1]))
+        x = deal(op[1])
+        r = mpc.from_bits(x)
+        if len(op) > 2 and op[2]:
+            x.reverse()  # the caller reuses its list: the result must be that of the list as passed
+            x[:] = x[:1] * len(x)
+        return r
     if kind == 'tz':
         _, a, l = op
         a = deal([a])[0]
@@ -685,7 +690,8 @@ def _op(draw, ts, tier):
             return [kind, a, l, integral]
         return [kind, draw(_value(lo, hi)), l, True]
     if kind == 'from_bits':
-        return ['from_bits', draw(_bits(draw(st.integers(0, min(nmax, L if k != 'fld' else L - 1)))))]
+        return ['from_bits', draw(_bits(draw(st.integers(0, min(nmax, L if k != 'fld' else L - 1))))),
+                draw(st.booleans())]  # flag: the caller mutates its list right after the call
     if kind == 'tz':
         return ['tz', draw(_value(lo, hi)), draw(st.sampled_from([None, L, 1, max(1, L // 2), draw(st.integers(1, L))]))]
     if kind == 'gcp2':
